@@ -55,12 +55,17 @@ Fixpoint nodupb (l : list N) : bool :=
   end.
 
 (* ---------- receiving actors (shared by V1.v and V2.v) ---------- *)
+(* `a_alive`: the actor accepts messages (ractor: status < Draining, i.e. Unstarted, Starting,
+   Running or Upgrading: `send_message` only rejects from Draining on).  `a_started`: it has
+   reached Running; before that (pre_start / post_start still executing) everything cast to it
+   is queued in the mailbox and handled once it runs. *)
 Record actor := mkActor {
   a_alive : bool;
+  a_started : bool;
   a_mbox : list (N * N);    (* (subscription, converted item), oldest first *)
   a_got : list (N * N) }.
 
-Definition actor0 : actor := mkActor true [] [].
+Definition actor0 : actor := mkActor true false [] [].   (* every actor begins Starting *)
 
 Definition tagged (s : N) (l : list (N * N)) : list N :=
   map snd (filter (fun x => N.eqb (fst x) s) l).
